@@ -344,3 +344,114 @@ def c13_combinators(chk, tier):
             elif x != "W 0":
                 chk.violation("unproved", "correspondence WidthHeu vs width.rs differs: %s" % case, case)
     chk.cov["combinator_cases"] = 2 * len(cases); chk.cov["combinator_nonzero_results"] = nz; chk.cov["combinator_agreements"] = agree
+
+
+# ================================================================================ C11
+def run_lines(side, cmd, lines, tag):
+    blocks = [[l] for l in lines]
+    shards, outs = run_sharded(side, cmd, blocks, tag=tag)
+    res = [None] * len(lines)
+    for k in range(len(shards)):
+        for (idx, _), o in zip(shards[k], outs[k]):
+            res[idx] = o
+    return res
+
+
+def fringecheck(lines, impl, tag):
+    """property oracle: the extracted abstract priority queue replays the implementation's answers"""
+    import concurrent.futures
+    n = 16
+    chunks = [list(range(i, len(lines), n)) for i in range(n)]
+    def work(k):
+        idx = chunks[k]
+        if not idx: return []
+        cf = workfile("%s_fc_cases_%d.txt" % (tag, k)); of = workfile("%s_fc_impl_%d.txt" % (tag, k))
+        open(cf, "w").write("\n".join(lines[i] for i in idx) + "\n")
+        open(of, "w").write("\n".join(impl[i] for i in idx) + "\n")
+        p = subprocess.run([MODEL_BIN, "fringecheck", cf, of], stdout=subprocess.PIPE, stderr=subprocess.PIPE, text=True)
+        if p.returncode != 0: raise RuntimeError("fringecheck failed: " + p.stderr[-500:])
+        return p.stdout.split("\n")[:-1]
+    res = [None] * len(lines)
+    with concurrent.futures.ThreadPoolExecutor(max_workers=n) as ex:
+        for k, out in enumerate(ex.map(work, range(n))):
+            for i, o in zip(chunks[k], out): res[i] = o
+    return res
+
+
+def check_c11(tier, solver_stream=None):
+    chk = Check("C11", tier, "proof")
+    pinned = ["C11_nodup_refines_priority_queue", "C11_pops_are_nonincreasing", "C11_len_is_number_of_poppable_items",
+              "C11_survivor_keeps_best", "C11_dedup_only_same_subproblem", "C11_refuted_before_fix"]
+    pr = check_proofs("C11", pinned)
+    proof_coverage(chk, pr, "make theories/Props/C11.vo && coqc theories/Props/C11.v (Print Assumptions scanned)")
+    for b, what in ((build_harness(), "harness"), (build_model(), "model driver")):
+        if not b[0]:
+            chk.violation("unproved", what + " does not build: " + b[1], {"build": b[1]}); return chk.finish()
+    rng = Rng(chk.seed)
+    # alphabet: push (2 states x 2 depths x 2 values x 2 ubs), pop, clear
+    pushes = [[1, s, d, v, u, 0] for s in (0, 1) for d in (0, 1) for v in (0, 1) for u in (0, 1)]
+    alpha = pushes + [[2], [3]]
+    L = 3 if tier == "quick" else 4
+    seqs = []
+    for n in range(1, L + 1):
+        for seq in itertools.product(range(len(alpha)), repeat=n):
+            if not any(alpha[i] == [2] for i in seq): continue     # at least one pop: pushes alone show nothing new
+            seqs.append([alpha[i] for i in seq])
+    # 9-symbol alphabet (one depth): push (2 states x 2 values x 2 ubs), pop — longer
+    pushes1 = [[1, s, 0, v, u, 0] for s in (0, 1) for v in (0, 1) for u in (0, 1)]
+    alpha1 = pushes1 + [[2]]
+    L1 = 5 if tier == "quick" else 6
+    for seq in itertools.product(range(len(alpha1)), repeat=L1):
+        ops = [alpha1[i] for i in seq]
+        if sum(1 for o in ops if o == [2]) < 2: continue
+        seqs.append(ops)
+    exhaustive_n = len(seqs)
+    nrand = 300 if tier == "quick" else 3000
+    for _ in range(nrand):
+        ns = rng.range(1, 6); nd = rng.range(1, 3)
+        ops = []
+        for _ in range(rng.range(20, 2000 if rng.chance(1, 20) else 120)):
+            k = rng.below(20)
+            if k < 12: ops.append([1, rng.below(ns), rng.below(nd), rng.range(-3, 6), rng.range(-3, 9), 0])
+            elif k < 19: ops.append([2])
+            else: ops.append([3])
+        seqs.append(ops)
+    # distinct path tags so that "that value's own path" is observable
+    lines = {0: [], 1: []}
+    for ops in seqs:
+        toks = []
+        tag = 0
+        for o in ops:
+            if o[0] == 1:
+                tag += 1; toks += o[:5] + [tag]
+            else: toks += o
+        for kind in (0, 1):
+            lines[kind].append("F %d %s" % (kind, " ".join(map(str, toks))))
+    agree = 0; nontrivial = set(); samples = []
+    dist = {"exhaustive_sequences": exhaustive_n, "random_sequences": nrand, "coalescing_pushes_seen": 0, "pops_nonempty": 0}
+    for kind, name in ((1, "NoDupFringe"), (0, "SimpleFringe")):
+        impl = run_lines("impl", "fringe", lines[kind], "c11_%d" % kind)
+        verdicts = fringecheck(lines[kind], impl, "c11_%d" % kind)
+        model = run_lines("model", "fringe", lines[kind], "c11m_%d" % kind) if kind == 1 else None
+        for i, (l, li, v) in enumerate(zip(lines[kind], impl, verdicts)):
+            case = {"fringe": name, "ops": l, "impl": li, "spec_verdict": v}
+            if len(samples) < 6 and i % 4001 == 7: samples.append(case)
+            if ":(" in li: nontrivial.add(li)
+            dist["pops_nonempty"] += li.count(":(")
+            if v != "OK":
+                chk.violation("property", "%s is not a faithful priority queue: %s (ops %s, answers %s)" % (name, v, l[:300], li[:300]), case)
+            if kind == 1:
+                if li == model[i]: agree += 1
+                elif v == "OK":
+                    chk.violation("unproved", "correspondence NoDupHeap model vs NoDupFringe differs (answers still satisfy the queue specification): "
+                                  "ops %s impl %s model %s" % (l[:300], li[:300], model[i][:300]), dict(case, model=model[i]))
+    chk.cov.update({"evaluations": 2 * len(seqs), "distinct_nontrivial": len(nontrivial),
+                    "rule": "all operation sequences with at least one pop up to length %d over the 18-symbol alphabet {push(2 states x 2 depths x 2 values x 2 ubs), "
+                            "pop, clear}; all sequences of length %d with at least two pops over the 9-symbol one-depth alphabet; seeded random sequences "
+                            "(20..2000 operations, up to 6 states x 3 depths); each run on both fringes; non-trivial = distinct answer history with a non-empty pop" % (L, L1),
+                    "exhaustive": True, "samples": samples, "input_distribution": dist, "agreements_model_vs_impl": agree,
+                    "traces_validated_against_impl": agree})
+    if solver_stream is not None:
+        solver_stream(chk, rng, tier)
+    chk.assumptions = ["SimpleFringe = binary_heap_plus::BinaryHeap (external crate): specified by the abstract priority queue, tested, not modelled"]
+    return chk.finish()
